@@ -28,9 +28,10 @@ Ascending(s) == \A i \in 1..(Len(s) - 1) : s[i] < s[i + 1]
 
 LIdx(t, n)  == CHOOSE i \in DOMAIN t.L : t.L[i].n = n
 LRec(t, n)  == t.L[LIdx(t, n)]
-EIdx(t, n)  == CHOOSE i \in DOMAIN t.E.L : t.E.L[i].n = n
+\* exported layers are logged once per layer OBJECT (under the node that owns it)
+EIdx(t, n)  == CHOOSE i \in DOMAIN t.E.L : t.E.L[i].n = Owner(t.arch, n)
 ERec(t, n)  == t.E.L[EIdx(t, n)]
-HasE(t, n)  == \E i \in DOMAIN t.E.L : t.E.L[i].n = n
+HasE(t, n)  == \E i \in DOMAIN t.E.L : t.E.L[i].n = Owner(t.arch, n)
 
 \* observed per-call-site output masks (all ones where the mask could not be read)
 M(t) == LET a == t.arch IN
